@@ -71,6 +71,10 @@ contains
     call s4(x)
     call s5(x, n)
     call ext(x)
+    do i = 1, n
+      call s3(x(1:4))
+      call s4(x)
+    end do
   end subroutine top
   subroutine s1(p, m)
     real, intent(inout) :: p(10)
@@ -252,7 +256,66 @@ program alg2
 end program alg2
 '''
 
-GENERIC = [("rich", G_RICH), ("inline", G_INLINE), ("arrays", G_ARRAYS), ("loops", G_LOOPS),
+# 2-D nests for compound transformations (LoopTiling2DTrans = chunk outer, chunk inner, swap): the
+# OUTER loop is always chunkable, the INNER one hits one refusal reason of ChunkLoopTrans each
+# (step not dividing the chunk size, step larger than it, variable step, negative step, CodeBlock in
+# the body, bound written in the body), so that with several tile sizes a later sub-apply can be
+# refused after an earlier one has mutated the tree if the up-front validation is incomplete.
+G_NESTS = '''
+subroutine nests(t, u, n, m, k)
+  integer, intent(in) :: n, m, k
+  real, intent(inout) :: t(100,100), u(100,100)
+  integer :: i, j, nn
+  do j = 1, 100
+    do i = 1, 100, 8
+      t(i,j) = 2.0 * t(i,j)
+    end do
+  end do
+  do j = 1, 100, 2
+    do i = 1, 100, 3
+      t(i,j) = u(i,j)
+    end do
+  end do
+  do j = 1, m
+    do i = 1, n, k
+      t(i,j) = 0.0
+    end do
+  end do
+  do j = 1, m
+    do i = n, 1, -1
+      u(i,j) = t(i,j)
+    end do
+  end do
+  do j = 1, 100, 16
+    do i = 1, 100, 64
+      u(i,j) = 1.0
+    end do
+  end do
+  do j = 1, m
+    do i = 1, n
+      write(*,*) t(i,j)
+    end do
+  end do
+  nn = n
+  do j = 1, m
+    do i = 1, nn
+      nn = nn - 1
+    end do
+  end do
+  do j = 1, 100, 5
+    do i = 1, 100, 5
+      t(i,j) = t(i,j) + 1.0
+    end do
+  end do
+  do j = 1, 100, 4
+    do i = 1, 100
+      t(i,j) = t(i,j) + 2.0
+    end do
+  end do
+end subroutine nests
+'''
+
+GENERIC = [("nests", G_NESTS), ("rich", G_RICH), ("inline", G_INLINE), ("arrays", G_ARRAYS), ("loops", G_LOOPS),
            ("kernelish", G_KERNELISH)]
 
 LFRIC_FILES = ["dynamo0p3/1_single_invoke.f90", "dynamo0p3/4_multikernel_invokes.f90",
@@ -316,7 +379,8 @@ def test_files():
 def programs(ctx):
     """the list of programs of this run (deterministic given tier and seed)."""
     tf = test_files()
-    progs = [Program(n, "generic", source=s) for n, s in GENERIC]
+    quick_templates = ("nests", "rich", "arrays", "loops")
+    progs = [Program(n, "generic", source=s) for n, s in GENERIC if ctx.thorough or n in quick_templates]
     rng = ctx.rng("fortgen")
     for k in range(ctx.pick(1, 3)):
         progs.append(fortgen_program(rng, "s%d_%d" % (ctx.seed, k)))
